@@ -26,6 +26,7 @@ META = {
     "assumptions": ["hash injectivity and signature unforgeability as stated in the theorems"],
 }
 IMPORTS = ["Model.MutVerify"]
+COQ_EXTRA = ["Model.MutRetry"]
 
 SDMF_HEADER = ">BQ32s16sBBQQLLLLQQ"
 HLEN = struct.calcsize(SDMF_HEADER)
@@ -163,6 +164,25 @@ def run(ctx):
 
 
 def oracle_stream(ctx, G, OFF, only=None):
+    ctx.correspondence("download-retry-vs-model")
+    rterms, rinfo = [], []
+    try:
+        _oracle_stream(ctx, G, OFF, only, rterms, rinfo)
+    finally:
+        if rterms:
+            pre = """
+Definition res_eqb (a b : option version) : bool :=
+  match a, b with Some x, Some y => version_eqb x y | None, None => true | _, _ => false end.
+"""
+            bad = ctx.coq_check(["Model.ServerMap", "Model.MutRetry"], rterms, preamble=pre, tag="c10retry")
+            for ix in bad:
+                ctx.mismatch("download-retry-model-differs", "real download_best_version %s; Model/MutRetry.download_best_version on the same shares says the opposite" % (
+                    "returned the newest version" if rinfo[ix]["real_newest"] else "did not return the newest version"), case=rinfo[ix],
+                    correspondence="download-retry-vs-model")
+            ctx.trace(len(rterms) - len(bad))
+
+
+def _oracle_stream(ctx, G, OFF, only, rterms, rinfo):
     n = ctx.n(40, 240)
     for i in (range(n) if only is None else [only]):
         r = ctx.rng("oracle", i)
@@ -323,6 +343,19 @@ def oracle_stream(ctx, G, OFF, only=None):
             intact_newest = set(shn for (srv, shn) in snaps[-1] if (srv, shn) not in altered)
             out = g.run(g.mutable_read(node.get_uri(), client=r.choice([0, 1])), outcome=True)
         ctx.case((seed, scenario), kind="oracle:%s:%s" % (fmt, scenario))
+        if scenario == "offset-forgery" and out.status in ("ok", "error"):
+            ctx.count("retry-model-cases")
+            # the same state in Model/MutRetry.v: intact shares are good shares of the genuine version (tag 5); the forged ones
+            # are bad shares of a version of their own with the same sequence number, sorting above (tag 9) or below (tag 1)
+            # the genuine one according to the direction in which the offset was moved
+            gtag, ftag = 5, (9 if odelta > 0 else 1)
+            allsh = sorted(snaps[-1])
+            gl = ["{| gs_share := {| srv := %s; shnum := %s; ver := {| seq := %s; vtag := %s; vk := %s |} |}; gs_good := %s |}" % (
+                T.N(srv_), T.N(shn_), T.N(nver), T.N(ftag if (srv_, shn_) in altered else gtag), T.N(k), T.boolean((srv_, shn_) not in altered)) for (srv_, shn_) in allsh]
+            real_newest = out.status == "ok" and out.value == contents[-1]
+            want = "(Some {| seq := %s; vtag := %s; vk := %s |})" % (T.N(nver), T.N(gtag), T.N(k))
+            rterms.append("Bool.eqb (res_eqb (download_best_version (fun _ _ _ => true) %s) %s) %s" % (T.lst(gl), want, T.boolean(real_newest)))
+            rinfo.append(dict(case, real_newest=real_newest, altered=sorted(altered)))
         if out.status in ("hung", "timeout"):
             ctx.oracle_fail("mutable-read-never-finished", "read of a corrupted mutable file: %s" % out.status, case=case)
             continue
